@@ -10,13 +10,12 @@ import (
 	"encoding/json"
 	"fmt"
 	"math"
-	"os"
-	"regexp"
 	"sort"
 	"strings"
 
 	vs "github.com/BlackVectorOps/semantic_firewall/v3/internal/verifsim"
 	"github.com/BlackVectorOps/semantic_firewall/v3/internal/verifsim/simdisk"
+	"github.com/BlackVectorOps/semantic_firewall/v3/internal/verifsim/simsig"
 	"github.com/BlackVectorOps/semantic_firewall/v3/pkg/analysis/topology"
 	"github.com/BlackVectorOps/semantic_firewall/v3/pkg/detection"
 )
@@ -91,18 +90,7 @@ func (m *storeModel) clone() *storeModel {
 	return c
 }
 
-func cloneSig(s detection.Signature) detection.Signature {
-	c := s
-	c.IdentifyingFeatures.RequiredCalls = append([]string(nil), s.IdentifyingFeatures.RequiredCalls...)
-	c.IdentifyingFeatures.OptionalCalls = append([]string(nil), s.IdentifyingFeatures.OptionalCalls...)
-	c.IdentifyingFeatures.StringPatterns = append([]string(nil), s.IdentifyingFeatures.StringPatterns...)
-	if s.IdentifyingFeatures.ControlFlow != nil {
-		cf := *s.IdentifyingFeatures.ControlFlow
-		c.IdentifyingFeatures.ControlFlow = &cf
-	}
-	c.Metadata.References = append([]string(nil), s.Metadata.References...)
-	return c
-}
+func cloneSig(s detection.Signature) detection.Signature { return simsig.Clone(s) }
 
 func (m *storeModel) ids() []string {
 	ids := make([]string, 0, len(m.sigs))
@@ -113,52 +101,7 @@ func (m *storeModel) ids() []string {
 	return ids
 }
 
-var fpStamp = regexp.MustCompile(`^FP:[^:]*:[^:]*:[^:]*:`)
-
-// normSig renders a signature canonically: nil and empty slices are the same
-// (gob and JSON cannot tell them apart), the timestamp inside a
-// false-positive note is masked (it is explicitly a time), a control-flow
-// hint block with every flag false equals an absent one only when
-// looseCF is set (used nowhere by default).
-func normSig(s detection.Signature) string {
-	c := cloneSig(s)
-	for i, r := range c.Metadata.References {
-		if strings.HasPrefix(r, "FP:") {
-			// FP:<RFC3339 timestamp>:<notes>; RFC3339 contains two ':' in the time and
-			// possibly one in the zone offset; the notes we generate contain no ':'.
-			if j := strings.LastIndex(r, ":"); j > 2 {
-				c.Metadata.References[i] = "FP:*:" + r[j+1:]
-			}
-		}
-	}
-	if c.IdentifyingFeatures.RequiredCalls == nil {
-		c.IdentifyingFeatures.RequiredCalls = []string{}
-	}
-	if c.IdentifyingFeatures.OptionalCalls == nil {
-		c.IdentifyingFeatures.OptionalCalls = []string{}
-	}
-	if c.IdentifyingFeatures.StringPatterns == nil {
-		c.IdentifyingFeatures.StringPatterns = []string{}
-	}
-	if c.Metadata.References == nil {
-		c.Metadata.References = []string{}
-	}
-	type wire struct {
-		detection.Signature
-		RC []string                    `json:"rc"`
-		OC []string                    `json:"oc"`
-		SP []string                    `json:"sp"`
-		CF *detection.ControlFlowHints `json:"cf"`
-		RF []string                    `json:"rf"`
-	}
-	w := wire{Signature: c, RC: c.IdentifyingFeatures.RequiredCalls, OC: c.IdentifyingFeatures.OptionalCalls,
-		SP: c.IdentifyingFeatures.StringPatterns, CF: c.IdentifyingFeatures.ControlFlow, RF: c.Metadata.References}
-	b, err := json.Marshal(w)
-	if err != nil {
-		return "ERR:" + err.Error()
-	}
-	return string(b)
-}
+func normSig(s detection.Signature) string { return simsig.Norm(s) }
 
 // ---- brute-force specification of the lookups ----
 
@@ -522,7 +465,6 @@ func checkExport(s *PebbleScanner, m *storeModel, tag string) *vs.Violation {
 	if err != nil {
 		return vs.Violationf("C06/export-error", "%sExportToJSON wrote nothing readable: %v", tag, err)
 	}
-	_ = os.ErrNotExist
 	var ef exportFile
 	if err := json.Unmarshal(b, &ef); err != nil {
 		return vs.Violationf("C06/export-json", "%sexport is not valid JSON: %v", tag, err)
